@@ -134,7 +134,7 @@ def _flip(s):
     return [{'list': 'tuple', 'tuple': 'list'}[s[0]]] + [_flip(c) for c in s[1:]]
 
 
-COMP = ['absent', 'scalar', 'same', 'sameflip', 'flat5', 'otherdict', 'partialdict']
+COMP = ['absent', 'scalar', 'same', 'sameflip', 'flat5', 'otherdict', 'partialdict', 'range7', 'keysview']
 
 
 def companion(kind, s, tag):
@@ -148,6 +148,10 @@ def companion(kind, s, tag):
         return [tag + str(i) for i in range(5)]
     if kind == 'otherdict':
         return {'q': tag, 'r': [tag]}
+    if kind == 'range7':             # neither a list, a tuple nor a dict, and of no container's length: broadcast whole
+        return range(7)
+    if kind == 'keysview':           # a dict view (three keys) is not a container to be matched either
+        return {'q': 1, 'r': 2, 's': 3}.keys()
     if kind == 'partialdict':        # as many keys as a two-key dict of the first argument, one of them shared: NOT the same keys -> broadcast whole
         return {'a': tag + 'A', 'zz': tag + 'Z'}
     raise ValueError(kind)
@@ -345,7 +349,9 @@ def leaf_paths(s, path=()):
     return [p for i, c in enumerate(s[1:]) for p in leaf_paths(c, path + (i,))]
 
 
-KINDS = ['plain', 'future', 'coro', 'done', 'custom']          # custom = an object of a user class defining __await__
+KINDS = ['plain', 'future', 'coro', 'done', 'custom', 'lazy']          # custom = an object of a user class defining __await__
+# lazy = a coroutine whose result only becomes available after it has been STARTED (a request sent on first use): the driver completes it, in the
+# order under exploration, once it has started, and waits (bounded) for that; a waiter that runs its awaitables one after the other never starts it
 
 
 def run_schedule(s, kinds, order, turns):
@@ -356,7 +362,13 @@ def run_schedule(s, kinds, order, turns):
     futs = {}
     trace = []
 
+    started = set()
+
     async def via(fut):
+        return await fut
+
+    async def lazy(fut, i):
+        started.add(i)
         return await fut
 
     class Custom:
@@ -377,7 +389,7 @@ def run_schedule(s, kinds, order, turns):
             return fut
         futs[i] = fut
         fut.add_done_callback(lambda f, i=i: trace.append(i))
-        return fut if k == 'future' else Custom(fut) if k == 'custom' else via(fut)
+        return fut if k == 'future' else Custom(fut) if k == 'custom' else lazy(fut, i) if k == 'lazy' else via(fut)
 
     async def driver():
         st = build(s, leaf)
@@ -386,6 +398,18 @@ def run_schedule(s, kinds, order, turns):
         for i in order:
             for _ in range(turns):
                 await asyncio.sleep(0)
+            if kinds[i] == 'lazy':
+                for _ in range(20):
+                    if i in started:
+                        break
+                    await asyncio.sleep(0)
+                if i not in started:
+                    task.cancel()
+                    try:
+                        await task
+                    except BaseException:
+                        pass
+                    return ('deadlock', 'the awaitable at %s was never started' % list(paths[i]))
             futs[i].set_result('R' + '/'.join(map(str, paths[i])))
         for _ in range(10 * len(order) + 20):
             if task.done():
@@ -413,7 +437,7 @@ def check_waiter(case):
     out = Out()
     s, kinds = case['s'], case['kinds']
     paths = leaf_paths(s)
-    pend = [i for i, k in enumerate(kinds) if k in ('future', 'coro', 'custom')]
+    pend = [i for i, k in enumerate(kinds) if k in ('future', 'coro', 'custom', 'lazy')]
     want_leaf = lambda path: ('P' if kinds[paths.index(path)] == 'plain' else 'R') + '/'.join(map(str, path))
     label = 'shape %s kinds %s' % (json.dumps(s), kinds)
     results = set()
@@ -424,7 +448,7 @@ def check_waiter(case):
             out.call()
             sig = dict(k=len(pend), turns=turns)
             if status == 'deadlock':
-                out.viol('waiter-deadlock', '%s order %s turns %d: waiter did not finish within the horizon' % (label, list(order), turns), **sig)
+                out.viol('waiter-deadlock', '%s order %s turns %d: %s' % (label, list(order), turns, res or 'waiter did not finish within the horizon'), **sig)
                 continue
             if status == 'exc':
                 out.viol('waiter-raised', '%s order %s turns %d: %s: %s' % (label, list(order), turns, type(res).__name__, res), **sig)
@@ -449,12 +473,12 @@ def gen_waiter(tier):
     q = tier == 'quick'
     for s in SHAPES_Q:
         L = len(leaf_paths(s))
-        for kinds in itertools.product(KINDS if L <= (3 if q else 4) else ['future', 'coro'] if L > 4 else ['plain', 'future', 'custom'], repeat=L):
+        for kinds in itertools.product(KINDS if L <= (3 if q else 4) else ['future', 'coro', 'lazy'] if L > 4 else ['plain', 'future', 'custom', 'lazy'], repeat=L):
             yield {'s': s, 'kinds': list(kinds), 'turns': [0, 1, 2]}
     if not q:
         for s in SHAPES_T:
             L = len(leaf_paths(s))
-            for kinds in itertools.product(['future', 'coro'], repeat=L):
+            for kinds in itertools.product(['future', 'coro', 'lazy'] if L <= 5 else ['future', 'lazy'], repeat=L):
                 yield {'s': s, 'kinds': list(kinds), 'turns': [0, 1, 2] if L <= 5 else [0, 1]}
 
 
@@ -473,7 +497,7 @@ def suites(tier, seed):
         Suite('normalisers', lambda: ({'v': v} for v in AVALS), check_aslist,
               rule='as_list / as_tuple applied twice over %d values incl. nested one-element wrappers' % len(AVALS)),
         Suite('waiter', lambda: gen_waiter(tier), check_waiter,
-              rule='structures with k awaitable leaves (pending future, coroutine awaiting a pending future, completed future, plain value) x every completion '
+              rule='structures with k awaitable leaves (pending future, coroutine awaiting a pending future, a lazy coroutine that can only complete once started, an object with __await__, completed future, plain value) x every completion '
                    'order (k!) x {0,1,2} extra loop turns between completions on a fresh asyncio loop; k <= %d; non-trivial = k >= 2' % (4 if q else 6),
               bounds=dict(max_awaitables=4 if q else 6, extra_turns=[0, 1, 2])),
     ]
